@@ -484,13 +484,6 @@ void build_model(PDU& root, std::vector<Lay>& m) {
                     a.trl = ext_structure_size(e);
                     // RFC 4884 section 4: the original datagram is zero padded to a 32-bit (ICMPv6: 64-bit) boundary and to at least 128 octets
                     if (has_inner) { size_t padded = pad_to(inner, v6 ? 8 : 4); if (padded < 128) padded = 128; a.trl += padded - inner; }
-                } else if (has_inner) {
-                    // no extension structure: when the length attribute is used (on request, or - documented in icmp.h - always for
-                    // an inner packet of more than 128 bytes) RFC 4884 wants the original datagram zero padded to the unit it is counted in
-                    unsigned t = v6 ? (unsigned)static_cast<ICMPv6*>(a.p)->type() : (unsigned)static_cast<ICMP*>(a.p)->type();
-                    bool derives = v6 ? t == 3 : (t == 3 || t == 11 || t == 12);
-                    size_t padded = pad_to(inner, v6 ? 8 : 4);
-                    if (derives && (a.user_len != 0 || padded > 128)) a.trl = padded - inner;
                 }
                 break;
             }
@@ -653,7 +646,11 @@ struct Checker {
         size_t present = field_end - body;   // bytes of original datagram field actually on the wire
         if (present > 255u * unit) { ctx.excluded("rfc4884-original-datagram-longer-than-the-length-attribute-can-say"); return; }
         unsigned attr = b[a.off + (v6 ? 4 : 5)] * unit;
-        if (attr != 0)
+        if (attr != 0 && !has_ext && present % unit != 0 && attr == pad_to(present, unit))
+            // RFC 4884 wants the original datagram zero padded to the unit the attribute counts in; without an extension structure libtins
+            // counts the padding but does not emit it (pinned by tests: BigEncapsulatedPacketIsNotConsideredToHaveExtensions)
+            CK(false, a.cls + ":rfc4884-length-counts-padding-that-is-not-emitted", "length attribute says " << attr << " bytes of original datagram, " << present << " bytes are there and no padding follows (no extension structure)");
+        else if (attr != 0)
             CK(attr == present, a.cls + ":rfc4884-length", "length attribute says " << attr << " bytes of original datagram, " << present << " bytes are there (inner packet " << inner << " bytes, extensions " << (has_ext ? "yes" : "no") << ")");
         if (has_ext && !has_inner) ctx.excluded("rfc4884-extension-structure-without-original-datagram");
         else if (has_ext && present != 128)
@@ -869,7 +866,8 @@ struct Checker {
             const Lay* g = i + 2 < m.size() ? &m[i + 2] : nullptr;
             bool known = false;
             switch ((int)a.proto) {
-                case dis::P_ETH2: case dis::P_DOT1Q: case dis::P_SNAP: case dis::P_SLL: known = expected_ethertype(a, c, g).known; break;
+                case dis::P_ETH2: case dis::P_DOT1Q: case dis::P_SLL: known = expected_ethertype(a, c, g).known; break;
+                case dis::P_SNAP: known = expected_ethertype(a, c, g).known && pure[i].get("oui") == 0; break;  // with another OUI the protocol id is not an EtherType
                 case dis::P_IP4: known = expected_ipproto(c).known && !D[i].later_fragment; break;
                 case dis::P_IP6: known = expected_ipproto(c).known && !D[i].later_fragment && !pure[i].later_fragment && a.chain_generic && pure[i].hlen == a.hdr; break;
                 case dis::P_AH: known = expected_ipproto(c).known && a.hdr % 4 == 0; break;
@@ -1118,7 +1116,10 @@ void shape_payload(PDU& root, Src& s, Ctx& ctx, std::vector<std::string>& prog, 
     if (mode >= 3) {
         if (mode == 5) newlen = (size_t)s.range(0, ctx.tier ? 9000 : 1600);
         else if (mode == 6) {
-            if (ctx.tier && s.chance(30)) { size_t target = 65535 - (size_t)s.range(0, 40); newlen = model_total < target ? pl.size() + (target - model_total) : pl.size(); }
+            if (s.chance(ctx.tier ? 40 : 25)) {   // totals next to 65535 and next to 32768 (16-bit and 15-bit boundaries of the length arithmetic)
+                size_t target = (s.boolean() ? 65535 : 32768 + 20) - (size_t)s.range(0, 40);
+                newlen = model_total < target ? pl.size() + (target - model_total) : pl.size();
+            }
             else newlen = (size_t)s.range(1400, 1600);
         } else newlen = LEN[s.pick(sizeof LEN / sizeof *LEN)];
     }
